@@ -206,6 +206,8 @@ class QConv2DBatchnorm(QConv2D):
     # get batchnorm weights
     gamma = self.batchnorm.gamma
     beta = self.batchnorm.beta
+    if beta is None:  # center=False: no offset
+      beta = 0.
     moving_mean = self.batchnorm.moving_mean
     moving_variance = self.batchnorm.moving_variance
 
@@ -345,6 +347,8 @@ class QConv2DBatchnorm(QConv2D):
     # get batchnorm weights and moving stats
     gamma = self.batchnorm.gamma
     beta = self.batchnorm.beta
+    if beta is None:  # center=False: no offset
+      beta = 0.
     moving_mean = self.batchnorm.moving_mean
     moving_variance = self.batchnorm.moving_variance
     # get the inversion factor so that we replace division by multiplication
